@@ -13,7 +13,7 @@ from ..model import ClassRef
 
 LEVEL = 'other'
 EXPLANATION = (
-    'Static analysis. (R1) one comparison key: orderitems (folded over all pairs of short integer tuples) is the sign of the first difference with zero padding -- antisymmetric and zero exactly on equal padded keys; ==, <, <=, >, >= of every lexical class come from the one wrapper over orderitems; hashitem hashes sort_tuple; for each concrete class the fields flowing into sort_tuple are the fields flowing into spec, and sort_tuple starts with the type rank. (R2) every class that defines __eq__ defines __hash__ in the same body. (R3) immutability: attribute stores on lexical instances occur only during construction; __setattr__/__delattr__ guards are installed and init() switches them on. (R4) the construction cache (DequeCache.__setitem__ folded over every reachable small state, cache sizes 0..2): index and reverse index stay paired, eviction removes every key of the evicted item, size bound holds, nothing raises. Injectivity of the flattened key, transitivity on real items, pickling/copying and cache transparency for real items are declined. (R5) cache invisibility: metacall.call folded with the spec cached / never cached / evicted, for constructible items and the non-constructible system predicates.')
+    'Static analysis by folding the definitions that give lexical items their value semantics. (R1) orderitems over all small key pairs; the constructors of Predicated / Quantified / Operated / CoordsItem folded over families of mock components: spec equal <=> sort_tuple equal, key starts with the type rank; the five comparison operators folded from the one wrapper; hashitem depends on the key only; Argument ordering and hash (title excluded). (R2) eq/hash pairing. (R3) immutability decided on the setters: the __setattr__ each lexical class resolves to (tools.NoSetAttr folded) applied in the state after lang.init(). (R4) the construction cache folded over every reachable small state for sizes 0-2. (R5) cache invisibility: metacall.call folded with the spec cached / never cached / evicted, system predicates included. Injectivity of the key on real items and pickling are declined. R3 also drives the setters with underscore names (_value_, _readonly, a private name) and folds the metaclass setters (LangCommonMeta / LangCommonEnumMeta.__setattr__) on the classes themselves: once init() ran, assigning the read-only flag, an existing class attribute or a new one on a lexical class is refused.')
 TRUSTED = ['CPython ast', 'sa.minieval', 'itertools.zip_longest / starmap semantics']
 ASSUMPTIONS = ['sort tuples consist of integers (as every constructor in lang/lex.py builds them)']
 
